@@ -125,6 +125,17 @@ def run(ctx):
             ctx.violation({'op': 'roundtrip', 'class': 'invalid-not-invalid'}, 'the invalid version prints as text that parses to %s' % bk, case)
         elif a != b or s != a:
             ctx.broken_correspondence('ToString / operator<< differ from the model on %r' % (v,), case)
+    # ToString must not depend on the global C++ locale (a grouping locale would print "1,000")
+    gl = [(a, b) for (a, b) in vers if b >= 1000][:4000] + [(255, 65534), (0, 1000), (100, 10000)]
+    out = vf.run_lines(guard, ['G on'] + ['T %d %d' % v for v in gl] + ['G off'])[1]
+    for v, a in zip(gl, out[1:1 + len(gl)]):
+        ctx.case(('TG', v)); ctx.count('tostring-under-grouping-locale')
+        want = ('%d.%d' % v).encode().hex() if v != (255, 65535) else b'<invalid>'.hex()
+        if a != want:
+            ctx.violation({'op': 'ToString', 'class': 'depends-on-global-locale'},
+                          'ToString(%d.%d) under a global locale with digit grouping gives %r' % (v[0], v[1], bytes.fromhex(a).decode('latin1')),
+                          {'op': 'ToString under grouping locale', 'version': v, 'impl_text': bytes.fromhex(a).decode('latin1')})
+            break
     # comparison operators: all pairs over a boundary grid + random
     g = [(a, b) for a in (0, 1, 2, 127, 128, 254, 255) for b in (0, 1, 255, 256, 32767, 32768, 65534, 65535)]
     pairs = [(x, y) for x in g for y in g] + [((r.randrange(256), r.randrange(65536)), (r.randrange(256), r.randrange(65536))) for _ in range(5000)]
@@ -140,6 +151,20 @@ def run(ctx):
             ctx.violation({'op': 'compare', 'class': 'order-not-lexicographic'}, 'operators on %r vs %r give %s, lexicographic order gives %s' % (x, y, a, want), case)
         elif a != b:
             ctx.broken_correspondence('comparison model differs on %r %r' % (x, y), case)
+    # the same operators on objects read off the wire with arbitrary reserved bytes: only (major, minor) may matter
+    rp = [(r.choice([0, 1, 0x7f, 0xfe, 0xff]), x, r.choice([0, 0xff, 0x80]), y) for x, y in pairs[:3136:3]] + \
+         [(0, x, 0xff, x) for x in g] + [(0xff, x, 0, x) for x in g]
+    rl = ['CR %d %d %d %d %d %d' % (ra, x[0], x[1], rb, y[0], y[1]) for ra, x, rb, y in rp]
+    ir = vf.run_parallel(guard, rl)
+    for (ra, x, rb, y), a in zip(rp, ir):
+        ctx.case(('CR', ra, x, rb, y)); ctx.count('compare-raw-reserved')
+        lex = [x == y, x != y, x < y, x > y, x <= y, x >= y]
+        want = ' '.join('1' if t else '0' for t in lex)
+        if a != want:
+            ctx.violation({'op': 'compare', 'class': 'order-depends-on-reserved-byte'},
+                          'operators on (reserved=%d) %r vs (reserved=%d) %r give %s, lexicographic order on (major, minor) gives %s' % (ra, x, rb, y, a, want),
+                          {'op': 'compare-raw', 'a': [ra] + list(x), 'b': [rb] + list(y), 'impl': a, 'lexicographic': want})
+            break
     ctx.coverage['rule'] = ('strings: all strings of length <= %d over %s, number pairs around 255/65535/LONG_MAX with 10 separators and decorations, random strings; '
                             'each parsed from a buffer whose terminator is the last byte before a PROT_NONE page and again from an exact-size heap block under ASan; '
                             'versions: %s; operator pairs: 56x56 grid + 5000 random. A case is non-trivial/distinct by its input.' % (4 if ctx.thorough else 3, 'digits . - + x space', 'all 2^24' if ctx.thorough else '256 majors x 12 edge minors + 20000 random'))
